@@ -12,7 +12,7 @@
 (* an event may carry eqto = j (j < its index, 0 = none): its row set     *)
 (* must equal the row set observed by event j (metamorphic clause).      *)
 (* TLC computes every expected value; the harness ships none.            *)
-EXTENDS EQLSem, Json, IOUtils
+EXTENDS EQLMech, Json, IOUtils
 
 Traces == ndJsonDeserialize(IOEnv.TRACE_FILE)
 
@@ -82,12 +82,48 @@ EvVerdict(t, j) ==
             IF ev.exc # "none" THEN "exception"
             ELSE InferVerdict(InferSeq(q, W), ev.insts)
 
+\* ---- Layer B binding (model drift, never a violation) ----
+\* the expression graph the library actually built (dumped by the harness) against EQLMech!Build
+RECURSIVE SameExpr(_, _), SameTree(_, _)
+SameExpr(a, b) ==
+  /\ a.k = b.k
+  /\ CASE a.k = "var"  -> a.i = b.i
+       [] a.k = "lit"  -> SameVal(a.v, b.v)
+       [] a.k = "attr" -> a.a = b.a /\ SameExpr(a.e, b.e)
+       [] a.k = "idx"  -> SameVal(a.key, b.key) /\ SameExpr(a.e, b.e)
+       [] a.k = "mcall" -> a.m = b.m /\ a.arg.t = b.arg.t /\ (a.arg.t = "noarg" \/ SameVal(a.arg, b.arg)) /\ SameExpr(a.e, b.e)
+       [] OTHER -> FALSE
+SameTree(g, m) ==
+  /\ g.k = m.k
+  /\ CASE g.k = "cmp"   -> g.op = m.op /\ g.inv = m.inv /\ SameExpr(g.l, m.l) /\ SameExpr(g.r, m.r)
+       [] g.k = "in"    -> g.inv = m.inv /\ SameExpr(g.l, m.l) /\ SameExpr(g.r, m.r)
+       [] g.k = "truth" -> g.inv = m.inv /\ SameExpr(g.e, m.e)
+       [] g.k = "pred"  -> g.p = m.p /\ g.inv = m.inv /\ Len(g.args) = Len(m.args)
+                           /\ \A j \in 1..Len(g.args) : SameExpr(g.args[j], m.args[j])
+       [] g.k \in {"and", "elif"} -> SameTree(g.l, m.l) /\ SameTree(g.r, m.r)
+       [] OTHER -> FALSE
+\* the order in which the mechanism model yields the rows against the observed order (only when the model
+\* yields no duplicates, i.e. where stage B1 is exact)
+OrderDrift(q, W, rows) ==
+  LET m == MechRowSeq(q, W)
+  IN NVars(q) <= 2 /\ Len(m) = Len(rows) /\ (\A a, b \in 1..Len(m) : a # b => ~SameRow(m[a], m[b]))
+     /\ \E j \in 1..Len(m) : ~SameRow(m[j], rows[j])
+DriftFailures(t) ==
+  IF "graphs" \notin DOMAIN t THEN {}
+  ELSE {f \in {[id |-> t.id, at |-> j, clause |->
+                   IF t.graphs[j].k = "none" THEN "ok"
+                   ELSE IF ~SameTree(t.graphs[j], Build(t.qs[j].cond)) THEN "drift.graph"
+                   ELSE IF \E e \in 1..Len(t.evs) : t.evs[e].op = "drain" /\ t.evs[e].qi = j /\ t.evs[e].exc = "none"
+                                                        /\ t.evs[e].first /\ OrderDrift(t.qs[j], t.W, t.evs[e].rows)
+                        THEN "drift.order"
+                   ELSE "ok"] : j \in 1..Len(t.graphs)} : f.clause # "ok"}
+
 CaseFailures(t) == {f \in {[id |-> t.id, at |-> j, clause |-> EvVerdict(t, j)] : j \in 1..Len(t.evs)} :
                       f.clause # "ok"}
 
 Init == i = 1 /\ TLCSet(1, {}) /\ TLCSet(2, 0)
 Step == /\ i <= Len(Traces)
-        /\ LET f == CaseFailures(Traces[i])
+        /\ LET f == CaseFailures(Traces[i]) \cup DriftFailures(Traces[i])
            IN /\ IF f = {} THEN TRUE ELSE TLCSet(1, TLCGet(1) \cup f)
               /\ TLCSet(2, i)
         /\ i' = i + 1
